@@ -331,7 +331,8 @@ def forall(*args):
 
 
 TInt, TNat, TStr, TReal, TBool = "int", "nat", "str", "real", "bool"
-_STRS = [""] + ["".join(t) for n in range(1, 4) for t in itertools.product("ABC", repeat=n)]
+_STRS = [""] + ["".join(t) for n in range(1, 5) for t in itertools.product("AC", repeat=n)] + \
+    [w for w in ("".join(t) for n in range(1, 4) for t in itertools.product("ABC", repeat=n)) if "B" in w]
 
 
 def _domain(t):
@@ -901,3 +902,39 @@ def joinable(dfs, on, suffixes):
             return False
         seen |= set(cols)
     return True
+
+
+# ---- C12 utilities
+def related(nb, x, y):
+    return y in set(nb(x))
+
+
+_AA20 = "ACDEFGHIKLMNPQRSTVWY"
+
+
+def two_sub_hit(x, reference):
+    """executable twin of the contract predicate: index form, enumerated directly"""
+    n = len(x)
+    for i in range(n):
+        for j in range(i + 1, n):
+            for a in _AA20:
+                if a == x[i]:
+                    continue
+                for b in _AA20:
+                    if b == x[j]:
+                        continue
+                    if x[:i] + a + x[i + 1:j] + b + x[j + 1:] in reference:
+                        return True
+    return False
+
+
+def three_sub_hit(x, reference):
+    n = len(x)
+    refs = set(reference)
+    import itertools as _it
+    for i, j, k in _it.combinations(range(n), 3):
+        for a, b, c in _it.product(_AA20, repeat=3):
+            if a != x[i] and b != x[j] and c != x[k]:
+                if x[:i] + a + x[i + 1:j] + b + x[j + 1:k] + c + x[k + 1:] in refs:
+                    return True
+    return False
